@@ -103,6 +103,16 @@ Definition hexval (c : Z) : option Z :=
   else if (65 <=? c) && (c <=? 70) then Some (c - 55)
   else None.
 
+Definition is_hex_b (c : Z) : bool := match hexval c with Some _ => true | None => false end.
+
+(* re.fullmatch("[0-9a-fA-F]{3}|[0-9a-fA-F]{6}", s) *)
+Definition hex36_b (s : str) : bool :=
+  forallb is_hex_b s && ((len s =? 3) || (len s =? 6)).
+
+(* min(int(current.lstrip("0")[:5] or 0), 9999) for a string of ASCII digits *)
+Definition csi_number (current : str) : Z :=
+  Z.min (int10 (firstn 5 (lstrip_by (fun c => c =? 48) current))) 9999.
+
 Fixpoint scan_hex (s : str) (acc : Z) (prev_us : bool) (nd : Z) : option (Z * Z * str) :=
   match s with
   | [] => if prev_us then None else Some (acc, nd, [])
